@@ -219,7 +219,9 @@ func (g *Generator) generateWithoutSaving(parents []*theTypeInfo, t reflect.Type
 				}
 				return nil, err
 			}
-			refSchemaRef := RefSchemaRef
+			// a reference of this generation's own: NewSchemaRefForValue edits the
+			// references it has handed out, RefSchemaRef belongs to the whole process
+			refSchemaRef := &openapi3.SchemaRef{Ref: RefSchemaRef.Ref, Value: RefSchemaRef.Value}
 			g.SchemaRefs[refSchemaRef]++
 			ref := openapi3.NewSchemaRef(t.Name(), &openapi3.Schema{
 				OneOf: []*openapi3.SchemaRef{
